@@ -16,6 +16,10 @@ import PdfModel.Model.CacheDoc
      calls  `;`-separated (`-` = none)  `g<T>.<id>` typed load | `r.<id>` resolve | `s.<id>` Stream::data
               | `w.<id>` raw_image_data | `m.<id>` image_data | `p.<n>` File::get_page
   → `<open>|<answer>;<answer>;…`   answers `ok:<value>` | `err:<class>` | `oof`
+
+  c12.dom <tol> <size> <root> <objs>
+  → `1` if the description lies in the domain of the theorems of Props/C12 (`CacheDoc.okRanks`: no cycle
+    among typed loads; sound by `Cache.generated_doc_wf`), else `0`
 -/
 
 namespace DrvC12
@@ -55,14 +59,6 @@ def parseObj (s : String) : Option Obj :=
 def parseObjs (s : String) : Option (List Obj) :=
   if s == "-" then some [] else mapM? parseObj (s.splitOn ";")
 
-inductive CallK where
-  | get (T id : Nat)
-  | resolve (id : Nat)
-  | sdata (id : Nat)
-  | rawimg (id : Nat)
-  | imgdata (id : Nat)
-  | page (n : Nat)
-
 def parseCall (s : String) : Option CallK :=
   match s.splitOn "." with
   | [k, a] =>
@@ -83,18 +79,10 @@ def parseCfg (s : String) : Option Cfg :=
   | [a, b] => do some ⟨← boolOf a.toString, ← boolOf b.toString, false⟩
   | _ => none
 
-def CallK.prog (d : Desc) (root : R) : CallK → P
-  | .get T id => getP T id
-  | .resolve id => rawP d id
-  | .sdata id => sdataP d id
-  | .rawimg id => rawimgP d id
-  | .imgdata id => imgdataP d id
-  | .page n => pageP root n
-
 /-- open the file (`get::<Catalog>(root)` through the caches), then the calls in order -/
 def runAll (d : Desc) (cfg : Cfg) (rootId : Nat) (calls : List CallK) : String :=
   let doc := toDoc d
-  let fuel := d.size + 4
+  let fuel := d.size + d.objs.length + 4
   let o := call doc cfg fuel St.empty (getP tC rootId)
   let rec go (st : St Val String) : List CallK → List String
     | [] => []
@@ -112,6 +100,10 @@ def handle (args : List String) : String :=
     | some cfg, some tol, some size, some root, some objs, some calls =>
       runAll ⟨size, tol, objs⟩ cfg root calls
     | _, _, _, _, _, _ => "bad-request"
+  | ["c12.dom", tol, size, _root, objs] =>
+    match boolOf tol, natOf size, parseObjs objs with
+    | some tol, some size, some objs => showBool (okRanks ⟨size, tol, objs⟩)
+    | _, _, _ => "bad-request"
   | _ => "bad-request"
 
 end DrvC12
